@@ -378,8 +378,10 @@ fn facet_reaching(fls: &[Fl], text: &str) -> Vec<BTreeSet<String>> {
                                 break;
                             }
                         }
-                        Fl::Split(_) => {
-                            if !r.is_empty() && !(r.len() == 1 && r[0] == cur) {
+                        Fl::Split(d) => {
+                            // a text that is itself one dictionary word is "split" into one detached
+                            // part (a clone): outer filters then no longer touch the buffer
+                            if r.len() >= 2 || (r.len() == 1 && !cur.is_empty() && d.contains(&cur)) {
                                 parts = Some(r);
                             }
                         }
@@ -428,11 +430,11 @@ fn filter_spec_texts(f: &Fl, texts: &BTreeSet<&str>) -> String {
             }
             format!("stem={}", e.join("/"))
         }
-        Fl::Split(_) => {
+        Fl::Split(d) => {
             let mut e = vec![];
             for t in texts {
                 let r = raw_with(f, t);
-                if !(r.len() == 1 && r[0] == **t) && !r.is_empty() {
+                if r.len() >= 2 || (r.len() == 1 && !t.is_empty() && d.iter().any(|w| w == t)) {
                     e.push(format!("{}>{}", dots(t), r.iter().map(|p| dots(p)).collect::<Vec<_>>().join("+")));
                 }
             }
@@ -1132,6 +1134,7 @@ pub fn run(ctx: &mut Ctx) {
         check_tokens(ctx, &Tk::Facet, &[Fl::Stem("Turkish".into()), Fl::Stem("French".into())], "👨\u{200d}👩\u{200d}👧naïve\0fahrtRusty");
         check_tokens(ctx, &Tk::Facet, &[Fl::Lower, Fl::Stem("English".into()), Fl::RemoveLong(40)], "Running\0flies\0PONIES\0Straße");
         check_tokens(ctx, &Tk::Facet, &[Fl::Split(vec!["dampf".into(), "schiff".into()]), Fl::Stem("German".into())], "dampfschiff\0fahrten");
+        check_tokens(ctx, &Tk::Facet, &[Fl::Split(vec!["payer".into(), "fahrt".into()]), Fl::Stem("German".into())], "payer\0fahrtthe\0klmrunning\0is\0\0");
         check_tokens(ctx, &Tk::Ngram { min: 1, max: 2, prefix: false }, &[], "a😀é");
     }
     let t0 = std::time::Instant::now();
